@@ -41,6 +41,7 @@ static struct scfg
     int trigger;
     long camfail, stofail;
     long shapefail; // the camera's get_shape fails when frame `shapefail` is next (first acquisition only), -1 = never
+    long setfail_at, setfail_n; // the camera's set fails on its calls number setfail_at .. setfail_at+setfail_n-1 (counted per camera), -1 = never
     int slow, pace;
     int camstop; // the camera's stop takes this many extra scheduling steps (a real camera's stop may block for a while)
     int zero_at; // camera returns "no data" (nbytes 0) once at this frame index (>=0)
@@ -213,6 +214,14 @@ c_set(struct Camera* c, struct CameraProperties* p)
 {
     struct MCam* m = containerof(c, struct MCam, cam);
     ev("{\"e\":\"DevUse\",\"kind\":\"cam\",\"hd\":%d,\"call\":\"set\"}", m->h);
+    // (only a camera that is not running rejects settings here: a rejection while it runs makes the HAL stop it from the
+    // client's thread while the source thread is using it - a device fault during acquisition, which is C09's domain)
+    static long nset[MAXS];
+    long k = m->running ? -1 : nset[m->s]++;
+    if (SC[m->s].setfail_at >= 0 && k >= SC[m->s].setfail_at && k < SC[m->s].setfail_at + SC[m->s].setfail_n) {
+        ev("{\"e\":\"CamSetFail\",\"s\":%d,\"hd\":%d}", m->s, m->h);
+        return Device_Err; // settings rejected (nothing applied)
+    }
     m->props = *p;
     uint32_t w = SC[m->s].w, h = SC[m->s].h;
     m->props.shape.x = w;
@@ -816,7 +825,7 @@ main(int argc, char** argv)
     cfg.budget = 60000;
     cfg.fair_budget = 60000;
     for (int s = 0; s < MAXS; s++)
-        SC[s] = (struct scfg){ .frames = 5, .w = 5, .h = 3, .type = SampleType_u8, .avg = 1, .camfail = -1, .stofail = -1, .shapefail = -1, .zero_at = -1 };
+        SC[s] = (struct scfg){ .frames = 5, .w = 5, .h = 3, .type = SampleType_u8, .avg = 1, .camfail = -1, .stofail = -1, .shapefail = -1, .setfail_at = -1, .setfail_n = 1, .zero_at = -1 };
     static char line[1 << 18];
     while (fgets(line, sizeof line, f)) {
         char* tok = strtok(line, " \t\n");
@@ -863,6 +872,8 @@ main(int argc, char** argv)
                 else if (!strcmp(k, "trigger")) SC[s].trigger = atoi(v);
                 else if (!strcmp(k, "camfail")) SC[s].camfail = atol(v);
                 else if (!strcmp(k, "shapefail")) SC[s].shapefail = atol(v);
+                else if (!strcmp(k, "setfail")) SC[s].setfail_at = atol(v);
+                else if (!strcmp(k, "setfailn")) SC[s].setfail_n = atol(v);
                 else if (!strcmp(k, "stofail")) SC[s].stofail = atol(v);
                 else if (!strcmp(k, "slow")) SC[s].slow = atoi(v);
                 else if (!strcmp(k, "pace")) SC[s].pace = atoi(v);
